@@ -1,9 +1,10 @@
 #!/bin/bash
 # usage: seed_setup.sh <Cnn> [...]   — creates a scratch worktree /tmp/seed/<Cnn> of /repo HEAD with the property text and the prompt
 set -e
-mkdir -p /tmp/seed
+BASE=${SEED_BASE:-/tmp/seed}
+mkdir -p $BASE
 for id in "$@"; do
-  wt=/tmp/seed/$id
+  wt=$BASE/$id
   [ -d "$wt" ] && { git -C /repo worktree remove --force "$wt" || rm -rf "$wt"; }
   git -C /repo worktree add --detach "$wt" HEAD >/dev/null 2>&1
   mkdir -p "$wt/out"
